@@ -75,7 +75,7 @@ PROPS = {
             "MemberUp/MemberDown/Rename emitted exactly as the active set changes": "theorem (full): summary_matches_transition, notifications_follow_summary",
             "num_members equals the number of active records": "theorem (full, every reachable state of the instance model — any history of public calls, inputs and RNG draws): C08H.num_members_exact_always (induction step C08H.num_members_exact_step over every model function; Proofs/Compose.lean, Proofs/MsInv.lean); per update: active_records_move_with_summary, counter_tracks_active_records",
             "Active only from idle with an active member; Idle only when none is left": "theorem (full, one call of adjust_connection_state): connection_transitions",
-            "replay of all notifications equals iter_members after every call (whole histories)": "partial: the counter half is a whole-history theorem (C08H); that the emitted MemberUp/MemberDown sequence replays to the active set is proven per applied update (notifications_follow_summary) and checked over histories by search (replay oracle) and correspondence",
+            "replay of all notifications equals iter_members after every call (whole histories)": "theorem (full): C08H.notifications_replay_one_call (any public call from any reachable state, also when it returns an error: replaying its MemberUp/MemberDown/Rename notifications on the active set before gives the active set after) and C08H.notifications_replay_whole_history (all notifications since Foca::new replayed from the empty set give the active members, at every point of any history); effect-aware composition Proofs/ComposeC.lean, Proofs/Replay.lean; the counter: C08H.num_members_exact_always",
             "AccumulatingRuntime yields the same effects in the same order": "theorem over the FIFO queue model: accumulating_runtime_is_fifo; the real type is run side by side on every search history",
         },
         RULE_HIST + "search: notification replay oracle (mirror set vs iter_members/num_members after every call, state machine of Active/Idle/Defunct/Rejoin with causes) on every history, with a twin instance driven through AccumulatingRuntime.",
